@@ -707,3 +707,39 @@ func ParallelJudge[C any](judge func(C) []Violation) func(Batch[C]) []Violation 
 		return out
 	}
 }
+
+// Pool collects generated cases and later judges them in concurrent batches (kind
+// "<name>" = ParallelJudge of the per-case judge).
+type Pool[C any] struct {
+	k     *Kind[Batch[C]]
+	cases []C
+	max   int
+}
+
+// NewPool registers the concurrent kind. Call it in TestReplay as well (max 0).
+func NewPool[C any](r *Recorder, name string, judge func(C) []Violation, max int) *Pool[C] {
+	return &Pool[C]{k: NewKind(r, name, ParallelJudge(judge)), max: max}
+}
+
+// Offer keeps the case for the concurrent phase while there is room.
+func (p *Pool[C]) Offer(c C) {
+	if len(p.cases) < p.max {
+		p.cases = append(p.cases, c)
+	}
+}
+
+// Run judges the collected cases in batches of `batch` from `workers` goroutines, `rounds` times each.
+func (p *Pool[C]) Run(t *testing.T, workers, rounds, batch int) {
+	t.Run("concurrent", func(t *testing.T) {
+		for lo := 0; lo < len(p.cases); lo += batch {
+			hi := lo + batch
+			if hi > len(p.cases) {
+				hi = len(p.cases)
+			}
+			if hi-lo < 2 {
+				break
+			}
+			p.k.Must(t, Batch[C]{Cases: p.cases[lo:hi], Workers: workers, Rounds: rounds}, true, "concurrent-batch")
+		}
+	})
+}
